@@ -60,6 +60,9 @@ func stdioServerMain() {
 			note("RECV %s", strings.TrimSpace(string(line)))
 		}
 		if err != nil {
+			// stdin closed: leave after a moment (the client under test closes stdin first and the other pipes next;
+			// leaving at once would race its own Close, which is not what this check is about)
+			time.Sleep(300 * time.Millisecond)
 			return
 		}
 		var m rpcMsg
@@ -70,7 +73,8 @@ func stdioServerMain() {
 		case m.Method == "initialize":
 			write([]byte(fmt.Sprintf(`{"jsonrpc":"2.0","id":%s,"result":{"protocolVersion":"2025-03-26","capabilities":{"tools":{"listChanged":true}},"serverInfo":{"name":"scripted","version":"1"}}}`+"\n", m.ID)))
 		case m.Method != "" && !m.hasID():
-		case m.Method == "" && len(m.ID) > 0:
+		case m.Method == "":
+			// an answer of the client to a server-issued request (possibly without a usable id)
 			note("CLIENTRESP %s", m.ID)
 		case m.Method == "tools/call" && m.Params.Name == "pending":
 			if probeDone {
